@@ -19,7 +19,7 @@ pub fn state_id(kind: SysKind, key: u8, cmd: bool) -> u8
     match kind
     {
         SysKind::Plain | SysKind::Validated => if cmd { ST_CMD + key } else { key },
-        SysKind::Once => if cmd { ST_CMD_ONCE } else { ST_ONCE },
+        SysKind::Once | SysKind::OnceValidated => if cmd { ST_CMD_ONCE } else { ST_ONCE },
         SysKind::Named(n) | SysKind::NamedDirect(n) | SysKind::RegisterNamed(n) => ST_NAMED + n * NKEYS + key,
         SysKind::Spawned => ST_SPAWNED + key,
     }
@@ -60,6 +60,7 @@ pub fn world_syscall(world: &mut World, kind: SysKind, key: u8, value: u32, u: u
         SysKind::Plain => Some(by_key!(key, |f| world.syscall(input, f))),
         SysKind::Validated => Some(by_key!(key, |f| world.syscall_with_validation(input, f, |_| {}))),
         SysKind::Once => Some(by_key!(key, |f| world.syscall_once(input, f))),
+        SysKind::OnceValidated => Some(by_key!(key, |f| world.syscall_once_with_validation(input, f, |_| {}))),
         SysKind::Named(n) => Some(by_key!(key, |f| named_syscall(world, n, input, f))),
         SysKind::NamedDirect(n) => by_key!(key, |f| named_syscall_direct::<In<u32>, u32>(world, sysname_of(&f, n), input).ok()),
         SysKind::RegisterNamed(n) => { by_key!(key, |f| register_named_system(world, sysname_of(&f, n), f)); Some(0) }
@@ -77,8 +78,10 @@ pub fn cmd_syscall(c: &mut Commands, h: &mut H, kind: SysKind, key: u8, value: u
     let input = pack(state_id(kind, key, true), value);
     match kind
     {
-        SysKind::Plain | SysKind::Validated => by_key_cmd!(key, |f| c.syscall(input, f)),
+        SysKind::Plain => by_key_cmd!(key, |f| c.syscall(input, f)),
+        SysKind::Validated => by_key_cmd!(key, |f| c.syscall_with_validation(input, f, |_| {})),
         SysKind::Once => by_key_cmd!(key, |f| c.syscall_once(input, f)),
+        SysKind::OnceValidated => by_key_cmd!(key, |f| c.syscall_once_with_validation(input, f, |_| {})),
         SysKind::Spawned => { if let Some(id) = h.sys[key as usize % 4] { c.spawned_syscall::<In<u32>>(id, pack(state_id(SysKind::Spawned, key, true), value)); } }
         _ => {}
     }
@@ -95,6 +98,33 @@ pub fn spawn_sys(world: &mut World, k: u8, key: u8)
     h.known.push(id.entity());
 }
 
+pub fn revoke_named(world: &mut World, name: u8, key: u8)
+{
+    let sn = by_key!(key, |f| sysname_of(&f, name));
+    if let Some(mut m) = world.get_resource_mut::<IdMappedSystems<In<u32>, u32>>() { m.revoke_sysname(sn); }
+}
+
+pub fn spawn_sys_rc(world: &mut World, k: u8, key: u8)
+{
+    let k = k as usize % 4;
+    if world.resource::<H>().sys[k].is_some() { return; }
+    let sig = if k < 2 { by_key!(key, |f| spawn_rc_system(world, f)) } else { by_key_cmd!(key, |f| spawn_rc_system(world, f)) };
+    let mut h = world.resource_mut::<H>();
+    h.sys[k] = Some(SysId::new(sig.entity()));
+    h.known.push(sig.entity());
+    h.sys_sigs[k] = Some(sig);
+}
+
+pub fn insert_sys(world: &mut World, k: u8, e: Entity, key: u8)
+{
+    let k = k as usize % 4;
+    // one spawned system per entity (a second insert would replace the first one's component)
+    if world.resource::<H>().sys[k].is_some() || world.get_entity(e).is_err() || world.resource::<H>().sys.iter().flatten().any(|s| s.entity() == e) { return; }
+    let ok = { let mut c = world.commands(); if k < 2 { by_key!(key, |f| c.insert_system(e, f)) } else { by_key_cmd!(key, |f| c.insert_system(e, f)) } };
+    world.flush();
+    if ok.is_ok() { world.resource_mut::<H>().sys[k] = Some(SysId::new(e)); }
+}
+
 pub fn kill_sys(world: &mut World, k: u8)
 {
     if let Some(id) = world.resource::<H>().sys[k as usize % 4] { world.despawn(id.entity()); }
@@ -107,11 +137,12 @@ fn gen_kind(r: &mut Rng, min_key: u8) -> Option<(SysKind, u8)>
     if min_key >= NKEYS { return None; }
     let key = min_key + r.below((NKEYS - min_key) as u64) as u8;
     let name = r.below(2) as u8;
-    Some(match r.below(12)
+    Some(match r.below(13)
     {
         0 | 1 | 2 => (SysKind::Plain, key),
         3 => (SysKind::Validated, key),
         4 => (SysKind::Once, key),
+        12 => (SysKind::OnceValidated, key),
         5 | 6 => (SysKind::Named(name), key),
         7 => (SysKind::NamedDirect(name), key),
         8 => (SysKind::RegisterNamed(name), key),
@@ -121,10 +152,14 @@ fn gen_kind(r: &mut Rng, min_key: u8) -> Option<(SysKind, u8)>
 
 pub fn gen_syscall(r: &mut Rng) -> Option<WOp>
 {
-    match r.below(10)
+    match r.below(14)
     {
         0 => Some(WOp::SpawnSys(r.below(4) as u8, r.below(NKEYS as u64) as u8)),
         1 => Some(WOp::KillSys(r.below(4) as u8)),
+        10 => Some(WOp::RevokeNamed(r.below(2) as u8, r.below(NKEYS as u64) as u8)),
+        11 => Some(WOp::SpawnSysRc(r.below(4) as u8, r.below(NKEYS as u64) as u8)),
+        12 => Some(WOp::DropSysRc(r.below(4) as u8)),
+        13 => Some(WOp::InsertSys(r.below(4) as u8, r.below(2) as u8, r.below(NKEYS as u64) as u8)),
         _ => { let (k, key) = gen_kind(r, 0)?; Some(WOp::Syscall(k, key, r.below(50) as u32)) }
     }
 }
@@ -134,8 +169,9 @@ pub fn gen_cmd_syscall(r: &mut Rng) -> Option<Op>
     let key = r.below(NKEYS as u64) as u8;
     Some(match r.below(6)
     {
-        0 | 1 | 2 => Op::CmdSyscall(SysKind::Plain, key, r.below(50) as u32),
-        3 => Op::CmdSyscall(SysKind::Once, key, r.below(50) as u32),
+        0 | 1 => Op::CmdSyscall(SysKind::Plain, key, r.below(50) as u32),
+        2 => Op::CmdSyscall(SysKind::Validated, key, r.below(50) as u32),
+        3 => if r.chance(50) { Op::CmdSyscall(SysKind::Once, key, r.below(50) as u32) } else { Op::CmdSyscall(SysKind::OnceValidated, key, r.below(50) as u32) },
         _ => Op::CmdSyscall(SysKind::Spawned, 2 + r.below(2) as u8, r.below(50) as u32),
     })
 }
@@ -154,7 +190,7 @@ pub fn gen_callees(g: &mut dyn GenOps) -> Vec<Vec<Vec<Op>>>
             let n = g.rng().range(0, 3);
             let mut ops = g.plain_ops(n);
             // strip ops that would recurse into arbitrary syscalls
-            ops.retain(|o| !matches!(o, Op::CmdSyscall(..) | Op::Direct(WOp::Syscall(..)) | Op::Direct(WOp::SpawnSys(..)) | Op::Direct(WOp::KillSys(..)) | Op::Now(_)));
+            ops.retain(|o| !matches!(o, Op::CmdSyscall(..) | Op::Direct(WOp::Syscall(..)) | Op::Direct(WOp::SpawnSys(..)) | Op::Direct(WOp::KillSys(..)) | Op::Direct(WOp::RevokeNamed(..)) | Op::Direct(WOp::SpawnSysRc(..)) | Op::Direct(WOp::DropSysRc(..)) | Op::Direct(WOp::InsertSys(..)) | Op::Now(_)));
             if g.rng().chance(50)
             {
                 let min = if g.rng().chance(35) { 0 } else { key + 1 };
